@@ -46,6 +46,7 @@ class Ctx:
         self.names: Dict[str, z3.ExprRef] = {}
         self.tokens: Dict[str, "SymReal"] = {}
         self.depth_in_run = 0
+        self.rounds: List[Tuple[Any, int, Any]] = []    # (argument, digits, R(argument, digits)) of this run
         self.max_decisions = 4000
 
     def check(self, *assumptions) -> str:
@@ -241,7 +242,9 @@ class SymReal(float):
     def __round__(s, n=None):
         if n is None:
             raise Unsupported("round() to int of a symbolic number")
-        return SymReal(_ROUND(s.t, z3.IntVal(int(n))))
+        r = _ROUND(s.t, z3.IntVal(int(n)))
+        CTX.rounds.append((s.t, int(n), r))
+        return SymReal(r)
 
     def is_integer(s):
         raise Unsupported("is_integer of a symbolic number")
@@ -374,6 +377,7 @@ def explore(fn: Callable[[], Any], max_paths: int = 20000, timeout_ms: int = 600
             ctx.prefix = prefix
             ctx.trace = []
             ctx.alts = []
+            ctx.rounds = []
             ctx.solver.push()
             try:
                 if setup is not None:
@@ -445,3 +449,10 @@ def concrete_eval(x, env: Dict[str, float]) -> float:
         return float(Fraction(v.numerator_as_long(), v.denominator_as_long()))
     except Exception:
         raise Unsupported(f"term does not evaluate to a number: {v}")
+
+
+def assume_round_axiom() -> None:
+    """|R(x,p) - x| <= 0.5*10^-p for every rounding recorded so far in this run (the only fact about round() a harness may use)"""
+    for x, p, r in list(CTX.rounds):
+        half = z3.RealVal(5) / z3.RealVal(10 ** (p + 1))
+        CTX.solver.add(z3.And(r - x <= half, x - r <= half))
